@@ -234,8 +234,10 @@ theorem view_write_frame (v : View) (a a' : NDArray V) (cnt off : Idx) (vals : L
       have hbl : (addIdx v.offset off).length = a.shape.length := by
         have : (addIdx v.offset off).length = min v.offset.length off.length := by simp [addIdx]
         omega
-      rw [C01.write_outside_rejected a cnt _ vals hc hbne (by omega) hbl hbk'] at h
-      cases h
+      by_cases hz : 0 ∈ cnt
+      · exact C01.get_write_zero a a' cnt _ vals hbne (by omega) hbl hz h idx
+      · rw [C01.write_outside_rejected a cnt _ vals hc hbne (by omega) hbl hz hbk'] at h
+        cases h
 
 end views
 
